@@ -336,4 +336,9 @@ def queryClass (nodes : List ONode) (dim : Nat) (m : Metric) (q : Vec) : Nat :=
     else if pairsAny (fun a b => (cosRank q a).le (cosRank q b) && (cosRank q b).le (cosRank q a)) cands then 1
     else 2
 
+/-- the part of `specSearch` that needs no ranking: live labelled nodes with a current vector,
+each at most once (evaluated alone when two candidates are too close for f32) -/
+def specLive (nodes : List ONode) (dim : Nat) (result : List Nat) : Bool :=
+  result.all (fun n => (candidate nodes dim n).isSome) && nodupNat result
+
 end SgModel.VecIdx
